@@ -101,10 +101,15 @@ structure State where
   inbox : Cid → Nat
   /-- ghost: number of inbound frames the actor of `c` has read and handled (forwarded / answered) -/
   handled : Cid → Nat
+  /-- packets other connections' actors have put into the outbound packet queue of `c`
+  (`Clients::send_packet` → `try_send_packet`) and its actor has not yet written -/
+  outq : Cid → Nat
+  /-- ghost: number of packets the actor of `c` has written to its client -/
+  delivered : Cid → Nat
 
 def init : State :=
   { conns := fun _ => none, entries := fun _ => [], nextCid := 0, results := [],
-    inbox := fun _ => 0, handled := fun _ => 0 }
+    inbox := fun _ => 0, handled := fun _ => 0, outq := fun _ => 0, delivered := fun _ => 0 }
 
 def setConn (s : State) (c : Cid) (x : Conn) : State :=
   { s with conns := fun k => if k = c then some x else s.conns k }
@@ -139,6 +144,8 @@ inductive Op where
   | arrive (c : Cid)
   /-- one iteration of the actor loop of `c` with the `biased` priority of the source -/
   | actorStep (c : Cid)
+  /-- a peer's actor forwards a datagram to `c` (`send_packet` finds `c` registered and queues it) -/
+  | enqueue (c : Cid)
 deriving DecidableEq, Repr
 
 /-- Moves the accept thread of `c` from phase `frm` to `to` (no-op in any other phase). -/
@@ -147,7 +154,10 @@ def advance (s : State) (c : Cid) (frm to : Phase) : State :=
   | none => s
   | some x => if x.phase = frm then setConn s c { x with phase := to } else s
 
-/-- The actor of `c` leaves `run_inner` and calls `Clients::unregister`. -/
+/-- The actor of `c` leaves `run_inner` and calls `Clients::unregister` — at once: the tail of
+`Actor::run` is `match self.run_inner(done).await { .. log .. }; self.clients.unregister(..)`
+(constant `exitUnregistersAtOnce`, regenerated from the source); whatever is still in the
+outbound queues is dropped with the `Client`, never written. -/
 def exitActor (s : State) (c : Cid) : State :=
   match s.conns c with
   | none => s
@@ -172,9 +182,21 @@ def actorStepWith (first : Bool) (s : State) (c : Cid) : State :=
       else if 0 < s.inbox c then
         { s with inbox := fun k => if k = c then s.inbox c - 1 else s.inbox k,
                  handled := fun k => if k = c then s.handled c + 1 else s.handled k }
+      else if 0 < s.outq c then
+        -- `packet_send_queue.recv()` arm: one queued packet is written to the client
+        { s with outq := fun k => if k = c then s.outq c - 1 else s.outq k,
+                 delivered := fun k => if k = c then s.delivered c + 1 else s.delivered k }
       else if x.cancelled then exitActor s c
       else s
     else s
+
+/-- A "graceful" exit that writes out the queued packets before unregistering (NOT what the code
+does; kept to state why it would matter): the connection stays registered while it drains. -/
+def drainOne (s : State) (c : Cid) : State :=
+  if 0 < s.outq c then
+    { s with outq := fun k => if k = c then s.outq c - 1 else s.outq k,
+             delivered := fun k => if k = c then s.delivered c + 1 else s.delivered k }
+  else exitActor s c
 
 /-- The actor loop iteration of the code as it is. -/
 def actorStep (s : State) (c : Cid) : State := actorStepWith cancelArmFirst s c
@@ -209,6 +231,11 @@ def step (s : State) : Op → State
   | .actorExit c => exitActor s c
   | .arrive c => { s with inbox := fun k => if k = c then s.inbox c + 1 else s.inbox k }
   | .actorStep c => actorStep s c
+  | .enqueue c =>
+    match s.conns c with
+    | some x =>
+      if x.phase = .registered then { s with outq := fun k => if k = c then s.outq c + 1 else s.outq k } else s
+    | none => s
 
 def runFrom (s : State) (ops : List Op) : State := ops.foldl step s
 
